@@ -555,6 +555,25 @@ def run_history(scn):
             if cmd == "damage":
                 damage_archive(os.path.join(root, st["archive"]), st["how"], st.get("arg"))
                 continue
+            if cmd == "bulk":
+                # many more recorded versions (as a long-lived project has): rows + finished directories written directly
+                os.makedirs(os.path.join(root, "cond-out"), exist_ok=True)
+                idx = os.path.join(root, "cond-out", "version_index.sqlite")
+                if not os.path.exists(idx):
+                    P.write_index(root, [])
+                conn = sqlite3.connect(idx)
+                for i in range(st["n"]):
+                    task, ts = "//bulk:z%d" % (i % 4), 5000 + i
+                    conn.execute("INSERT INTO version_index VALUES (?,?,?,?)", (task, ts, None, 0))
+                    dd = os.path.join(root, "cond-out", "bulk", "z%d.task.%d" % (i % 4, ts))
+                    os.makedirs(dd)
+                    for fn in ("done.txt", "stdout.log", "stderr.log"):
+                        with open(os.path.join(dd, fn), "w") as f:
+                            f.write("%d\n" % i)
+                conn.commit()
+                conn.close()
+                before = CLI.project_store(root)
+                continue
             if cmd == "downgrade":
                 # the project was last touched by an old Conductor: its index is still in format 1 (the next command migrates it)
                 P.downgrade_index(root)
@@ -609,8 +628,10 @@ def run_history(scn):
             if st.get("project"):
                 before = CLI.project_store(tgt_root)
             watcher = RowWatcher(tgt_root, before) if st.get("watch") else None
+            # st["env"]: what `cond` finds in its OWN environment (nested use: an outer task's COND_* variables); "@root" = project
+            amb = {k_: v_.replace("@root", tgt_root) for k_, v_ in (st.get("env") or {}).items()}
             r = run_command(tgt_root, argv, cwd=st.get("cwd", ""), clock=clock, crash_at=st.get("crash_at"),
-                            count=st.get("count", False))
+                            count=st.get("count", False), env=amb)
             late_writes = watcher.finish() if watcher else []
             after = CLI.project_store(tgt_root)
             oafter = outside_digest(root)
